@@ -131,7 +131,7 @@ def family_size(fam, nel, m=None):
 def select_fields(case, nel):
     fam = case['fam']
     if fam == 'grey':
-        allf = [(n, grey_field(n, nel, case.get('tab', 0))) for n in GREY_NAMES]
+        allf = [(f"{n}@{t}", grey_field(n, nel, t)) for t in case.get('tabs', [0]) for n in GREY_NAMES]
         idx = list(range(len(allf)))
     elif fam == 'few':
         ff = few_fields(nel, case['m'])
@@ -231,8 +231,7 @@ def generate(tier, seed):
                     maps = 'all' if ((not quick and nel <= 9) or par == pars_bin[0]) else 'none'
                     for s in (range(0, n, CHUNK) if par in pars_bin else ()):
                         yield dict(base, fam=fam, chunk=[s, min(CHUNK, n - s)], forms=forms, maps=maps, **extra)
-                    for tab in tabs:
-                        yield dict(base, fam='grey', tab=tab, forms=forms, maps='all')
+                    yield dict(base, fam='grey', tabs=tabs, forms=forms, maps='all')
 
 
 # ------------------------------------------------------------------ execution --------------------------------------
@@ -300,7 +299,15 @@ def execute(case):
             V[key] = {'check': check, 'signature': s, 'detail': detail, 'case': ncase}
 
     # ---- the implementations of this case -------------------------------------------------------------------------
-    canon = Impl(pym, grid, tuple(ro.unit_vector(axis, sgn)), ns, par)
+    impls = {}
+
+    def unit_impl(g, ax, sg):
+        """The filter on grid g with the direction given as unit 3-vector (one object per (grid, direction))."""
+        if (g, ax, sg) not in impls:
+            impls[(g, ax, sg)] = Impl(pym, g, tuple(ro.unit_vector(ax, sg)), ns, par)
+        return impls[(g, ax, sg)]
+
+    canon = unit_impl(grid, axis, sgn)
     want_dir = np.array(ro.unit_vector(axis, sgn))
     cnt['checks'] += 1
     got = canon.direction_attribute()
@@ -353,8 +360,7 @@ def execute(case):
             taxis, tsgn = ro.map_direction(mp, axis, sgn)
             perm = np.array(ro.map_permutation(mp, shape), dtype=int)
             role = 'print' if axis in mp[1] else 'orth'
-            maps.append((name, mp[0] + '_' + role, perm, ro.DIR_NAME[(taxis, tsgn)],
-                         Impl(pym, tgrid, tuple(ro.unit_vector(taxis, tsgn)), ns, par)))
+            maps.append((name, mp[0] + '_' + role, perm, ro.DIR_NAME[(taxis, tsgn)], unit_impl(tgrid, taxis, tsgn)))
 
     # ---- every field ----------------------------------------------------------------------------------------------
     maxerr, maxrem, maxover = 0.0, 0, -1.0
@@ -417,7 +423,7 @@ def execute(case):
                        narrowed(k, mp=name))
 
     chunk = case.get('chunk')
-    key = f"{grid}|ns{ns}|{par}|{dname}|{case['fam']}{case.get('tab', '')}|{chunk}"
+    key = f"{grid}|ns{ns}|{par}|{dname}|{case['fam']}{case.get('tabs', '')}|{chunk}"
     outcome = (f"{dim}d/{dname}/ns{ns}/layers{'1' if nlay == 1 else '>1'}/err{mag(maxerr)}/removed{min(maxrem, 3)}"
                f"/over{mag(max(maxover, 0.0))}")
     return {'states': len(fields), 'transitions': cnt['trans'], 'checks': cnt['checks'], 'nontrivial': nlay >= 2,
